@@ -322,10 +322,22 @@ func runC19(t *simrt.Tape, o Opts) Outcome {
 					d.Data[0] ^= 1
 					r = &pb.SessionRequest{Request: &pb.SessionRequest_Decrypt{Decrypt: &pb.Decrypt{DataRowRecord: d}}}
 				case rqDecEmpty:
-					if i%2 == 0 {
+					// records that lack parts: no record, an empty one, a key without parent meta, a key
+					// with an empty parent meta, data without key
+					switch i % 5 {
+					case 0:
 						r = &pb.SessionRequest{Request: &pb.SessionRequest_Decrypt{Decrypt: &pb.Decrypt{}}}
-					} else {
+					case 1:
 						r = &pb.SessionRequest{Request: &pb.SessionRequest_Decrypt{Decrypt: &pb.Decrypt{DataRowRecord: &pb.DataRowRecord{}}}}
+					case 2:
+						g := toPB(&recA.DRR)
+						r = &pb.SessionRequest{Request: &pb.SessionRequest_Decrypt{Decrypt: &pb.Decrypt{DataRowRecord: &pb.DataRowRecord{Data: g.Data, Key: &pb.EnvelopeKeyRecord{Created: g.Key.Created, Key: g.Key.Key}}}}}
+					case 3:
+						g := toPB(&recA.DRR)
+						r = &pb.SessionRequest{Request: &pb.SessionRequest_Decrypt{Decrypt: &pb.Decrypt{DataRowRecord: &pb.DataRowRecord{Data: g.Data, Key: &pb.EnvelopeKeyRecord{Created: g.Key.Created, Key: g.Key.Key, ParentKeyMeta: &pb.KeyMeta{}}}}}}
+					default:
+						g := toPB(&recA.DRR)
+						r = &pb.SessionRequest{Request: &pb.SessionRequest_Decrypt{Decrypt: &pb.Decrypt{DataRowRecord: &pb.DataRowRecord{Data: g.Data}}}}
 					}
 				case rqEmpty:
 					r = &pb.SessionRequest{}
